@@ -37,6 +37,10 @@ var (
 )
 
 func finish(outcome string) {
+	if outcome != "ok" {
+		// if another goroutine is dying of an unrecovered panic, let the runtime report that first
+		time.Sleep(50 * time.Millisecond)
+	}
 	fmt.Fprintf(os.Stdout, "\nVRT-OUTCOME: %s\n", outcome)
 	os.Stdout.Sync()
 	os.Exit(3)
